@@ -15,7 +15,7 @@ ANCHOR_HELPERS = ('_find_node', '_find_all_nodes', '_get_node_ids_for_list', '_c
 
 def method(prog, cls, fn):
     """`fn` with the private helpers of its class inlined (except the anchor helpers)."""
-    return inline(prog, cls, fn, exclude=ANCHOR_HELPERS)
+    return inline(prog, cls, fn, exclude=ANCHOR_HELPERS, depth=6)
 
 
 def _enclosing_function(node):
